@@ -2142,26 +2142,188 @@ def comparison_dependent(c: Contract, eq) -> str:
     return ""
 
 
-NEARBY = 1.0 + 3e-4  # equal to the first call's arguments when printed with 3 significant digits, different as numbers
+# ------------------------------------------------------------------------------------- anchors from the module's own test
+_ANCHORS: dict = {}
+ANCHOR_TEST_LIMIT_S = 20
+ANCHOR_MAX_PER_FUNCTION = 6
 
 
-def _nearby(entry):
+def _fixture_functions(testmod) -> dict:
+    """fixture name -> undecorated function, for the pytest fixtures defined in a test module (pytest >= 8.4 wraps them in a
+    FixtureFunctionDefinition, older versions mark the function)"""
+    out = {}
+    for attr, obj in vars(testmod).items():
+        fn = name = None
+        if hasattr(obj, "_get_wrapped_function"):
+            try:
+                fn = obj._get_wrapped_function()
+                name = getattr(obj, "name", None) or getattr(getattr(obj, "_fixture_function_marker", None), "name", None)
+            except Exception:  # noqa: BLE001
+                fn = None
+        elif hasattr(obj, "__pytest_wrapped__"):
+            fn = obj.__pytest_wrapped__.obj
+            name = getattr(getattr(obj, "_pytestfixturefunction", None), "name", None)
+        if fn is not None:
+            out[name or fn.__name__] = fn
+    return out
+
+
+def test_anchors(mod) -> dict:
+    """calculate function name -> list of {parameter: value} of the calls the module's OWN test makes that return normally.
+
+    The test file (test/**/<module stem>_test.py, unique, its directory names all occurring in the module path) is executed
+    with recording wrappers around the module's calculate_* functions: every test function whose parameters are fixtures of
+    that file is run once; calls that raise are not recorded.  Used ONLY to find arguments inside the function's domain when
+    seeded random magnitudes find none; the expected values of the test are not used."""
+    name = mod.__name__
+    if name in _ANCHORS:
+        return _ANCHORS[name]
+    out: dict = {}
+    _ANCHORS[name] = out
+    from .core import REPO
+    stem, parts = name.rsplit(".", 1)[1], name.split(".")
+    troot = REPO / "test"
+    cands = [p for p in troot.rglob(stem + "_test.py") if all(x in parts for x in p.relative_to(troot).parts[:-1])]
+    if len(cands) != 1:
+        return out
+    originals = {n: f for n, f in vars(mod).items() if n.startswith("calculate_") and callable(f)}
+
+    def recorder(fn_name, orig):
+        sig = inspect.signature(orig)
+
+        def wrapper(*a, **kw):
+            result = orig(*a, **kw)
+            try:
+                bound = sig.bind(*a, **kw)
+                bound.apply_defaults()
+                if len(out.setdefault(fn_name, [])) < ANCHOR_MAX_PER_FUNCTION:
+                    out[fn_name].append(dict(bound.arguments))
+            except TypeError:
+                pass
+            return result
+        return wrapper
+
+    try:
+        for n, f in originals.items():
+            setattr(mod, n, recorder(n, f))
+        import importlib.util
+        spec = importlib.util.spec_from_file_location(f"vf_anchor_{abs(hash(name))}", cands[0])
+        tm = importlib.util.module_from_spec(spec)
+        with _quiet():
+            spec.loader.exec_module(tm)
+            fixtures = _fixture_functions(tm)
+            for tn, tf in list(vars(tm).items()):
+                if not (tn.startswith("test_") and inspect.isfunction(tf)):
+                    continue
+                try:
+                    want = list(inspect.signature(tf).parameters)
+                    if any(w not in fixtures for w in want):
+                        continue
+                    with time_limit(ANCHOR_TEST_LIMIT_S):
+                        tf(**{w: fixtures[w]() for w in want if not inspect.signature(fixtures[w]).parameters})
+                except KeyboardInterrupt:
+                    raise
+                except BaseException:  # noqa: BLE001  (a failing / slow test function contributes what it recorded so far)
+                    continue
+    except KeyboardInterrupt:
+        raise
+    except BaseException:  # noqa: BLE001
+        pass
+    finally:
+        for n, f in originals.items():
+            setattr(mod, n, f)
+    return out
+
+
+def _anchor_entry(p: Param, v):
+    """a recorded argument -> replayable entry (None: not representable)"""
+    from sympy.physics.units import Quantity as SymQuantity
+    if isinstance(v, (list, tuple)):
+        if not _is_seq_param(p):
+            return None
+        es = [_anchor_entry(p, x) for x in v]
+        return None if any(e is None for e in es) or not es else ("list", es)
+    if isinstance(v, bool):
+        return None
+    try:
+        if isinstance(v, SymQuantity):
+            z = complex(sp.N(numeric_constants(sp.sympify(v.scale_factor)), 30))
+        else:
+            z = complex(sp.N(sp.sympify(v), 30))
+    except Exception:  # noqa: BLE001
+        return None
+    if z != z or abs(z.imag) > 0 or abs(z.real) == float("inf"):
+        return None
+    x = z.real
+    if _wants_int(p):
+        return ("i", int(round(x))) if abs(x - round(x)) < 1e-12 else None
+    if isinstance(v, SymQuantity) and not (_is_dimensionless(param_dimension(p)) or _ann_str(p) == "float"):
+        return ("q", x, "")
+    if not isinstance(v, SymQuantity) and not (_is_dimensionless(param_dimension(p)) or _ann_str(p) == "float"
+                                               or "float" in _ann_str(p)):
+        return None
+    return ("f", x)
+
+
+def _perturb(entry, rng):
     tag = entry[0]
     if tag == "q":
-        return ("q", entry[1] * NEARBY, entry[2])
+        return ("q", entry[1] * math.exp(rng.uniform(-0.25, 0.25)), rng.choice([x for x, _ in PREFIXES]))
     if tag == "f":
-        return ("f", entry[1] * NEARBY)
+        return ("f", entry[1] * math.exp(rng.uniform(-0.25, 0.25)))
+    if tag == "list":
+        return ("list", [_perturb(e, rng) for e in entry[1]])
+    return entry
+
+
+def anchors_for(mod, c: Contract) -> list:
+    res = []
+    for call in test_anchors(mod).get(c.fname, []):
+        es = {}
+        for p in c.params:
+            if isinstance(p.target, tuple) or p.name not in call:
+                es = None
+                break
+            e = _anchor_entry(p, call[p.name])
+            if e is None:
+                es = None
+                break
+            es[p.name] = e
+        if es and es not in res:
+            res.append(es)
+    return res
+
+
+# relative steps of the second call: mostly equal to the first call's arguments when printed with 3 (resp. 4) significant
+# digits, different as numbers, and far above the residual tolerance
+NEARBY_STEPS = (3e-4, 2e-5)
+
+
+def _nearby(entry, step: float = NEARBY_STEPS[0]):
+    tag = entry[0]
+    if tag == "q":
+        return ("q", entry[1] * (1.0 + step), entry[2])
+    if tag == "f":
+        return ("f", entry[1] * (1.0 + step))
     if tag in ("list", "tuple"):
-        return (tag, [_nearby(e) for e in entry[1]])
+        return (tag, [_nearby(e, step) for e in entry[1]])
     return entry
 
 
 def _history_clause(c: Contract, law_attr, eq, assoc, entries) -> Optional[dict]:
+    for step in NEARBY_STEPS:
+        h = _history_clause_at(c, law_attr, eq, assoc, entries, step)
+        if h is not None:
+            return h
+    return None
+
+
+def _history_clause_at(c: Contract, law_attr, eq, assoc, entries, step) -> Optional[dict]:
     """Call-history clause of the bounded stand-in / audit: straight after an accepted call, the REAL function is called
     again with arguments that differ in the fourth significant digit; the law must hold for THESE arguments and this value
     (a result remembered from the earlier call - a cache keyed by a rounded printout, module-level state - does not).
     None: clause holds or the second call is refused / not evaluable (not judged)."""
-    near = {k: _nearby(v) for k, v in entries.items()}
+    near = {k: _nearby(v, step) for k, v in entries.items()}
     if near == entries:
         return None
     try:
@@ -2194,7 +2356,7 @@ def _history_clause(c: Contract, law_attr, eq, assoc, entries) -> Optional[dict]
     }
 
 
-def bounded_function(c: Contract, law_attr, eq, assoc, rng, npoints: int, wide: bool = False) -> dict:
+def bounded_function(c: Contract, law_attr, eq, assoc, rng, npoints: int, wide: bool = False, anchors=None) -> dict:
     """Call the DECORATED real function at seeded random magnitudes and unit prefixes; check the law residual.
 
     wide=True: the magnitudes walk the whole prefix range femto .. tera (two points per prefix and round: dimensional
@@ -2218,6 +2380,12 @@ def bounded_function(c: Contract, law_attr, eq, assoc, rng, npoints: int, wide: 
                 fs.reverse()
             wide_val = {p.name: f * 10.0 ** expo for p, f in zip(dimensional, fs)}
         for p in c.params:
+            if anchors:
+                # anchored sampling: the arguments of a call the module's own test makes, first as they are, then every
+                # magnitude moved by a random factor in [0.78, 1.28] and written with a random unit prefix
+                base = anchors[(tries - 1) % len(anchors)]
+                entries[p.name] = base[p.name] if tries <= len(anchors) else _perturb(base[p.name], rng)
+                continue
             if isinstance(p.target, tuple):
                 # R-matrix parameter: independent seeded magnitudes and unit prefixes per entry, asymmetric when square
                 entries[p.name] = _matrix_entries(p, _random_matrix(p, rng), rng)
@@ -2272,7 +2440,7 @@ def bounded_function(c: Contract, law_attr, eq, assoc, rng, npoints: int, wide: 
                 break
             continue
         accepted += 1
-        if ok and accepted == 1 and not wide:
+        if ok and accepted <= 3 and not wide and not any("after-an-earlier-call" in f["name"] for f in failures):
             h = _history_clause(c, law_attr, eq, assoc, entries)
             if h is not None:
                 failures.append(h)
@@ -2657,6 +2825,17 @@ def _process_function_main(mod, fname, fr: FnResult, rng, npoints, demoted, gene
             b = bounded_function(c, law_attr, eq, assoc, rng, npoints)
         except Exception as e:  # noqa: BLE001
             b = {"accepted": 0, "refused": 0, "failures": [], "errors": [f"{type(e).__name__}: {e}"], "tries": 0}
+        if b["accepted"] == 0 and not b["failures"]:
+            try:
+                anch = anchors_for(mod, c)
+                if anch:
+                    b2 = bounded_function(c, law_attr, eq, assoc, rng, npoints, anchors=anch)
+                    if b2["accepted"] > 0 or b2["failures"]:
+                        b2["anchored"] = len(anch)
+                        b2["errors"] = b["errors"][:1] + b2["errors"]
+                        b = b2
+            except Exception as e:  # noqa: BLE001
+                b["errors"].append(f"anchored sampling failed: {type(e).__name__}: {str(e)[:120]}")
         if fr.bounded is None:
             fr.bounded = b
             fr.bounded["law"] = law_attr
@@ -2664,6 +2843,8 @@ def _process_function_main(mod, fname, fr: FnResult, rng, npoints, demoted, gene
             fr.bounded["accepted"] += b["accepted"]
             fr.bounded["failures"] += b["failures"]
             fr.bounded["errors"] += b["errors"]
+            if b.get("anchored"):
+                fr.bounded["anchored"] = b["anchored"]
     if fr.bounded is not None:
         fr.reason = " || ".join(dict.fromkeys(reasons))
         if fr.bounded["accepted"] == 0:
